@@ -88,3 +88,14 @@ Theorem C03_ligero_wf_few_agreements :
     forall J, NoDup J -> incl J idx -> (length J < n_cols)%nat.
 Proof. exact @ligero_wf_few_agreements. Qed.
 Print Assumptions C03_ligero_wf_few_agreements.
+
+(* the agreement bound for any left-multiplying vector b (both Ligero variants) *)
+Theorem C03_ligero_few_agreements_any_tensor :
+  forall (FO : FieldOps) (FL : FieldLaws FO) wf n_cols n_ext omega rows a b value pf r idx res,
+    NoDup (dom omega n_ext) -> Forall (fun r => (length r <= n_cols)%nat) rows ->
+    Forall (fun i => (i < n_ext)%nat) idx ->
+    l_check_g wf n_cols n_ext omega (map (encode omega n_ext) rows) a b value pf r idx = Ok res ->
+    (exists x, eval (lf_v pf) x <> eval (rowcomb rows n_cols b) x) ->
+    forall J, NoDup J -> incl J idx -> (length J < n_cols)%nat.
+Proof. exact @ligero_few_agreements_g. Qed.
+Print Assumptions C03_ligero_few_agreements_any_tensor.
